@@ -258,6 +258,11 @@ pub struct Case {
     /// in nothing but their start offset
     #[serde(default)]
     pub full_width_windows: bool,
+    /// (with `shared_backing`, without `late_windows`) the backing picture is a 96 MiB atlas
+    /// (2048 x 12288 pixels) of which the windows are small sprites: whatever a handler remembers
+    /// per image must be bounded by the window, not by the buffer the window keeps alive
+    #[serde(default)]
+    pub huge_backing: bool,
 }
 
 // ---------------------------------------------------------------------------------------
@@ -1498,7 +1503,26 @@ pub fn check_case(case: &Case) -> Outcome {
             rows += top + c.h;
             width = width.max(left + c.w + 1);
         }
-        if regions.len() >= 2 {
+        let huge = case.huge_backing && !case.late_windows && regions.len() >= 2;
+        if huge {
+            let (bh, bw) = ((rows + 1).max(2048), width.max(12288));
+            let backing = guard_val(|| {
+                let mut data = vec![garbage(7); bh * bw + 1];
+                for (_, r0, left, c) in &regions {
+                    for r in 0..c.h {
+                        for col in 0..c.w {
+                            data[(r0 + r) * bw + left + col] = rgba(c.px(r * c.w + col));
+                        }
+                    }
+                }
+                Image::from(SurfaceOwned::from_vec(Size { height: bh, width: bw }, data))
+            })?;
+            for (i, r0, left, c) in &regions {
+                shared[*i] = Some(guard_val(|| backing.crop(*r0..r0 + c.h, *left..left + c.w))?);
+            }
+            windows = true;
+            run.label("img:sprites-of-a-96MiB-atlas");
+        } else if regions.len() >= 2 {
             let backing = guard_val(|| {
                 Image::from(SurfaceOwned::new_with(
                     Size {
@@ -2055,6 +2079,8 @@ impl Property for C11 {
                     evs,
                     late_windows: shared_backing && late_windows,
                     full_width_windows: shared_backing && full_width,
+                    // rare (about one case in 700; allocating the atlas costs ~40 ms)
+                    huge_backing: shared_backing && !late_windows && quiet && tweak == 21,
                     shared_backing,
                 }
             })
